@@ -91,6 +91,26 @@ def main():
     variant(0, {'ElementMatrix'}, libE=lambda m: [[m[0][0] + 1] + m[0][1:]] + m[1:])
     variant(0, {'FeedTotals'}, libtot=lambda t: [bump(t[0])] + t[1:])
     variant(0, {'Raises'}, raised=True)
+    # a trace element (Ar, 2e-9 mol beside ~3 mol): its loss must be seen, a residual at the
+    # solver's absolute tolerance must not
+    spec2 = spec[:3] + [{'name': 'Ar', 'formula': {'H': 0, 'O': 0, 'Ar': 1}, 'a': L.nasa_coeffs(rnd, -18.0, T)}]
+    for s_ in spec2:
+        s_['formula'].setdefault('Ar', 0)
+    case2 = {'cid': 'c1', 'kind': 'rand', 'elements': ['H', 'O', 'Ar'], 'species': spec2,
+             'feed': [1.0, 1.0, 0.5, 2e-9], 'points': [[T, 2.0]]}
+    ev2, mism2, _ = c16.execute(case2)
+    f2, _ = core.validate_traces('Trace_Equilibrium', 'Trace', [(0, ev2)])
+    if f2 or mism2:
+        raise SystemExit('trace-element trace is not clean on this tree: %r %r' % (f2[:5], mism2[:2]))
+    names2, els2, E2, feed2, _, _ = c16._build(case2)
+    t0 = [k for k, e in enumerate(ev2) if e['ev'] == 'solve'][0]
+    n2 = [D(x) for x in ev2[t0]['n']]
+    g2 = [D(x) for x in ev2[t0]['g']]
+    for expect, ar in (({'AtomsConserved'}, 1e-20), ({'AtomsConserved'}, 1e-9), (set(), 2e-9 + 2e-14)):
+        evs = copy.deepcopy(ev2)
+        m = n2[:3] + [ar]
+        evs[t0].update(L.numeric_fields(E2, [x > 0 for x in feed2], m, [x / math.fsum(m) for x in m], g2, T, 2.0))
+        probes.append((expect, evs))
     traces = [(k, evs) for k, (_, evs) in enumerate(probes)]
     fails, _ = core.validate_traces('Trace_Equilibrium', 'Trace', traces)
     got = {}
